@@ -104,6 +104,7 @@ package keeper
 //@ loop Keeper.WithdrawAllAvailable#1
 //@   invariant 0 <= \i && \i <= len(accVestingPools.VestingPools)
 //@   invariant !toWithdraw.IsNil() && toWithdraw == sumWd($pIL[owner], $pS[owner], $pW[owner], $pLockEnd[owner], $blockTime, \i) && toWithdraw >= 0
+//@   invariant poolsSane(owner) ==> toWithdraw <= \i * 1000000000000000000000000000000000000000000000000000000000000
 //@   invariant forall j :: {accVestingPools.VestingPools[j]} \i <= j && j < len(accVestingPools.VestingPools) ==> poolEq(accVestingPools.VestingPools[j], owner, j)
 //@   invariant forall j :: {accVestingPools.VestingPools[j]} 0 <= j && j < \i ==>
 //@     (let p = accVestingPools.VestingPools[j] in p.Name == $pName[owner][j] && p.VestingType == $pType[owner][j] && p.LockStart == $pLockStart[owner][j]
